@@ -470,8 +470,9 @@ def main(argv=None):
         agg.write(root, wall, violations=0, extra={'determinism': det, 'fresh_interpreter_checks': fresh_done,
                                                      'skipped_after_deadline': skipped,
                                                      'known_findings_fixed': fixed, 'known_findings_open_hit': len(known_hits)})
-    print('%s held on %d runs (%d distinct non-trivial) in %.0fs; determinism %d/%d; evidence written'
-          % (prop, agg.n, agg.distinct_nontrivial(), wall, det['equal'], det['runs']), flush=True)
+    print('%s held on %d runs (%d distinct non-trivial) in %.0fs; determinism %d/%d%s'
+          % (prop, agg.n, agg.distinct_nontrivial(), wall, det['equal'], det['runs'],
+             '' if args.no_evidence else '; evidence written'), flush=True)
     return 0
 
 
